@@ -51,6 +51,7 @@ class Interp:
         self.max_steps = max_steps
         self.on_call = on_call  # on_call(fn, node, callee) -> value or raise OutOfFragment
         self.depth = 0
+        self.const_override = None  # {qualified name: value}
         self.on_range = None  # on_range(interp, value) -> list: how a range-for visits a modelled container
 
     def set_order(self, o):
@@ -93,6 +94,8 @@ class Interp:
             dk = n.get('dk')
             if dk == 'enumerator':
                 return n['val']
+            if self.const_override and n.get('qn') in self.const_override:
+                return self.const_override[n['qn']]      # a named constant evaluated at a scaled value chosen by the rule
             key = n.get('did') if 'did' in n else n.get('name')
             if key in env:
                 return env[key]
